@@ -214,13 +214,9 @@ Section Main.
       assert (Hse : forallb tb_shp_exp es = true).
       { cbn [tb_shp_stat] in Hs. apply andb_true_iff in Hs. apply Hs. }
       intros st Hne Hg.
-      assert (Hlc : (length es <= length (combine ns ls))%nat).
-      { pose proof Hs as Hs'. cbn [tb_shp_stat] in Hs'. apply andb_true_iff in Hs'. destruct Hs' as [Hs' _].
-        apply andb_true_iff in Hs'. destruct Hs' as [Hs1 Hs2]. apply Nat.eqb_eq in Hs1. apply Nat.leb_le in Hs2.
-        rewrite combine_length. lia. }
       destruct (local_marks_chain W ns ls es l c0 b C2) as [c1 [c2 [Lc1 [Lc2 [C3 Hil]]]]].
       pose proof (chain_le W _ _ _ C3) as L3.
-      destruct (local_piece W nm flv es (combine ns ls) c0 c1 c2 RNone (init_loc ns ls es l) st IHe ltac:(assumption) Hse Hn C3 Hlc)
+      destruct (local_piece W nm flv es (combine ns ls) c0 c1 c2 RNone (init_loc ns ls es l) st IHe ltac:(assumption) Hse Hn C3)
         as [P1 P2]; auto.
       + intros [x y] Hin. apply in_combine_r in Hin. destruct (chain_ids W _ _ _ C1 y Hin) as [A1 [_ A3]].
         split; [exact A1|]. cbn [snd]. clear - A3 Lc1. lia.
